@@ -1031,7 +1031,7 @@ func (x *Exec) appendCall(fr *Frame, e *ast.CallExpr, st *State, k func(*State, 
 					st.assumeRaw(Forall([]*Term{i}, Implies(And(Le(IntLit(0), i), Lt(i, a.Len)), Eq(Select(arr, i), Select(a.Leaves[p], Add(a.Off, i))))))
 					x.quantN++
 					j := Var(fmt.Sprintf("qi_%d", x.quantN), SInt)
-					st.assumeRaw(Forall([]*Term{j}, Implies(And(Le(IntLit(0), j), Lt(j, b.Len)), Eq(Select(arr, Add(a.Len, j)), Select(b.Leaves[p], Add(b.Off, j))))))
+					st.assumeRaw(Forall([]*Term{j}, Implies(And(Le(a.Len, j), Lt(j, Add(a.Len, b.Len))), Eq(Select(arr, j), Select(b.Leaves[p], Add(b.Off, Sub(j, a.Len)))))))
 					res.Leaves[p] = arr
 				}
 				k(st, []Value{res})
